@@ -12,10 +12,11 @@ scratch=$(mktemp -d /dev/shm/praatio-seed-XXXXXX)
 trap 'rm -rf "$scratch"' EXIT
 rsync -a --exclude .git --exclude __pycache__ /repo/ "$scratch/"
 cd "$scratch" || exit 2
-PYTHONPATH="$scratch" /venv/bin/python "$dst/demo.py" >/dev/null 2>&1; demo_without=$?
+mkdir -p "$scratch/SEED" && cp "$dst/demo.py" "$scratch/SEED/demo.py"   # demos locate the tree as the parent of SEED/
+PYTHONPATH="$scratch" /venv/bin/python "$scratch/SEED/demo.py" >/dev/null 2>&1; demo_without=$?
 if ! patch -p1 -s < "$dst/patch.diff"; then echo "PATCH-FAILED"; exit 3; fi
 tests=$(/venv/bin/python -m pytest -q -p no:cacheprovider --timeout=900 2>&1 | tail -1)
-PYTHONPATH="$scratch" /venv/bin/python "$dst/demo.py" >/dev/null 2>&1; demo_with=$?
+PYTHONPATH="$scratch" /venv/bin/python "$scratch/SEED/demo.py" >/dev/null 2>&1; demo_with=$?
 echo "tests: $tests | demo without change: exit $demo_without | with change: exit $demo_with"
 detected=""; missed=""
 for p in C01 C02 C03 C04 C05 C06 C07 C08 C09 C10 C11 C12 C13 C14 C15 C16 C17 C18 C19 C20; do
